@@ -405,6 +405,18 @@ func run(sc *Scenario, scratch string) {
 	for i := range sc.Steps {
 		st := &sc.Steps[i]
 		emit(map[string]interface{}{"a": "Begin", "id": st.ID, "op": st.Op})
+		// an input that makes a parser or the planner loop must not hold up the rest
+		done := make(chan struct{})
+		go func(id int) {
+			select {
+			case <-done:
+			case <-time.After(45 * time.Second):
+				emit(map[string]interface{}{"a": "Result", "id": id, "op": "hang", "hang": true})
+				fmt.Fprintln(os.Stderr, "fatal error: step did not return within 45s")
+				os.Exit(2)
+			}
+		}(st.ID)
+		defer func() {}()
 		switch st.Op {
 		case "sql":
 			e.doSQL(st)
@@ -415,6 +427,7 @@ func run(sc *Scenario, scratch string) {
 		case "probe":
 			e.doProbe(st)
 		}
+		close(done)
 	}
 	e.ts.Close()
 	e.client.Close()
